@@ -190,3 +190,27 @@ OBLIGATIONS.append(Ob("history_depth_urls", history_depth_urls, [("h0", "byte"),
                       functions=["multidecoder.multidecoder.Multidecoder.scan", "multidecoder.decoders.network.find_urls",
                                  "multidecoder.decoders.network.parse_url"],
                       bound="URL skeleton with one free path byte, free shallow depth 1..3, deep scan in between"))
+
+
+def order_independence_wide(k0, k1, k2, k3, d0, d1, d2, d3, ff2, fs2):
+    """as order_independence with a third file and 4 data bytes"""
+    files = {"a": bytes([k0, 10, k1, 10]), "b": bytes([k2, 10]), "c": bytes([k3, 10, k0, 10])}
+    data = bytes([d0, d1, d2, d3])
+    try:
+        t1 = Multidecoder(decoders=build(files, False, False)).scan(data)
+        t2 = Multidecoder(decoders=build(files, ff2, fs2)).scan(data)
+    except Exception as e:  # noqa: BLE001
+        return hx.fail(f"raised {type(e).__name__}: {e}", files=files, data=data), True
+    if not same_trees(t1, t2):
+        return hx.fail("the tree depends on directory enumeration order / set iteration order", files=files, data=data, t1=t1, t2=t2), True
+    return True, len(t1.children) >= 2
+
+
+OBLIGATIONS.append(Ob("order_independence_wide", order_independence_wide,
+                      bytes_params("k", 4) + bytes_params("d", 4) + [("ff2", "bool"), ("fs2", "bool")],
+                      pre=" and ".join([KW3.format(x=f"k{i}") for i in range(4)] + [DL.format(x="d0"), KW3.format(x="d1"), KW3.format(x="d2"), DL.format(x="d3")]),
+                      splits=["ff2 == True and fs2 == False", "ff2 == False and fs2 == True", "ff2 == True and fs2 == True"],
+                      tier="thorough", timeout=1500, layer="B",
+                      functions=["multidecoder.registry.get_keywords", "multidecoder.keyword.find_keywords", "multidecoder.multidecoder.Multidecoder.scan_node"],
+                      stubs=["os.walk / open and `set` as in order_independence"],
+                      bound="3 keyword files, 4 one-byte keywords over {a A b} (one listed twice), data of 4 bytes"))
